@@ -11,6 +11,7 @@ require (
 	github.com/miekg/dns v1.0.4
 	github.com/mimoo/disco v0.0.0-20180114190844-15dd4b8476c9
 	github.com/op/go-logging v0.0.0-20160211212156-b2cb9fa56473
+	github.com/rs/xid v0.0.0-20170604230408-02dd45c33376
 	golang.org/x/crypto v0.0.0-20200128174031-69ecbb4d6d5d
 	golang.org/x/time v0.0.0-20191024005414-555d28b269f0
 )
